@@ -773,8 +773,10 @@ impl Runner {
                 st.ixs = vec![
                     self.w.ix_start_liquidation(liquidatee, liq.auth),
                     self.w.ix_withdraw_with(liquidatee, liq.auth, wbi, liq.tokens[wbi], wa, None, risk.clone()),
-                    self.w.ix_repay(liquidatee, liq.auth, rbi, liq.tokens[rbi], ra, None),
-                    self.w.ix_end_liquidation(liquidatee, liq.auth, risk),
+                    // every third bracket repays "all" (what a liquidator closing out a position does)
+                    if *ramt % 3 == 0 { self.w.ix_repay(liquidatee, liq.auth, rbi, liq.tokens[rbi], 0, Some(true)) } else { self.w.ix_repay(liquidatee, liq.auth, rbi, liq.tokens[rbi], ra, None) },
+                    // after a repay-all the closed balance is no longer among the observation accounts
+                    self.w.ix_end_liquidation(liquidatee, liq.auth, if *ramt % 3 == 0 { self.w.risk_metas(&liquidatee, None, Some(self.w.banks[rbi].key)) } else { risk }),
                 ];
             }
             Op::Flash { u, b, amt, rel, repay } => {
@@ -1000,6 +1002,20 @@ impl Runner {
                             }
                         }
                     }
+                }
+            }
+        }
+        // A full withdrawal is normally sent WITHOUT the observation accounts of the bank being closed. A client may
+        // also send them: if the first form is refused, retry once with the bank included (on a correct program this
+        // is refused as well, or judged like any other success).
+        if !r.ok {
+            if let (Op::Withdraw { all: true, .. }, Some(bi), Some(acct), Some(ui)) = (op, st.bank, st.macct, st.user) {
+                let usr = self.w.users[ui].clone();
+                let ix = self.w.ix_withdraw_with(acct, usr.auth, bi, usr.tokens[bi], 0, Some(true), self.w.risk_metas(&acct, None, None));
+                let r2 = self.w.vm.exec_tx(std::slice::from_ref(&ix));
+                if r2.ok {
+                    st.ixs = vec![ix];
+                    r = r2;
                 }
             }
         }
